@@ -155,6 +155,9 @@ impl PanicInfo {
 // CPU clock (process user+system time in seconds) through /proc, no libc needed.
 
 pub fn cpu_seconds() -> f64 {
+    if cfg!(miri) {
+        return 0.0;
+    }
     if let Ok(s) = std::fs::read_to_string("/proc/self/stat") {
         // fields after the ")" of comm
         if let Some(pos) = s.rfind(')') {
